@@ -31,6 +31,9 @@ type ConnSpec struct {
 	Causes    []Cause `json:"causes"`
 	// CloseInOpen: the open callback itself closes the connection (accept/add births)
 	CloseInOpen bool `json:"close_inside_onopen,omitempty"`
+	// DialWithTimeout: birth "dial" goes through DialAsyncTimeout with a generous timeout (the dial timer is
+	// armed and must be gone once the connection is established)
+	DialWithTimeout bool `json:"dial_with_timeout,omitempty"`
 }
 
 type Case struct {
@@ -188,7 +191,7 @@ func allowed(k string, idx int) []string {
 		return []string{"reset", "eof"}
 	case "readdl":
 		return []string{"readtimeout"}
-	case "writedl":
+	case "writedl", "writedl-bare":
 		return []string{"writetimeout"}
 	case "writetoreset":
 		return []string{"reset", "eof"}
@@ -408,6 +411,10 @@ func runCase(c Case) vlib.Result {
 			case "dial":
 				addr = liveLn.Addr().String()
 				lc.expectEstablished = true
+				if cs.DialWithTimeout {
+					timeout = 5 * time.Second
+					res.Classes = append(res.Classes, "dial-with-timeout-established")
+				}
 			case "dial-refused":
 				addr = refusedAddr()
 			default:
@@ -463,6 +470,11 @@ func runCase(c Case) vlib.Result {
 					return res
 				}
 				lc.peer = lc.accepted
+				if cs.DialWithTimeout {
+					// established (the listener accepted it); no byte is written through it, so that the next thing
+					// to touch the write timer is the termination cause itself
+					break
+				}
 				if _, err := lc.nbc.Write([]byte{0x5A}); err != nil {
 					res.Err = fmt.Errorf("connection %d: dial reported success but Write failed: %v", i, err)
 					return res
@@ -587,6 +599,9 @@ func runCase(c Case) vlib.Result {
 						_ = lc.nbc.SetReadDeadline(time.Now().Add(40 * time.Millisecond))
 					case "writedl":
 						_, _ = lc.nbc.Write(make([]byte, 20000)) // peer does not read: a backlog stays (3 x 20000 stays below the 64 KiB limit)
+						_ = lc.nbc.SetWriteDeadline(time.Now().Add(40 * time.Millisecond))
+					case "writedl-bare":
+						// a write deadline without any write before it
 						_ = lc.nbc.SetWriteDeadline(time.Now().Add(40 * time.Millisecond))
 					case "writetoreset":
 						if tc, ok := lc.peer.(*net.TCPConn); ok {
@@ -759,7 +774,10 @@ func gen(t *rapid.T) Case {
 	c := Case{Mode: rapid.SampledFrom(vlib.Modes).Draw(t, "mode"), NPoller: rapid.IntRange(1, 3).Draw(t, "npoller"), Async: rapid.IntRange(0, 3).Draw(t, "async") == 0}
 	n := rapid.IntRange(1, 4).Draw(t, "nconns")
 	for i := 0; i < n; i++ {
-		cs := ConnSpec{Birth: rapid.SampledFrom([]string{"add", "add", "accept", "accept", "dial", "dial-refused", "dial-timeout", "udp"}).Draw(t, "birth")}
+		cs := ConnSpec{Birth: rapid.SampledFrom([]string{"add", "add", "accept", "accept", "dial", "dial", "dial-refused", "dial-timeout", "udp"}).Draw(t, "birth")}
+		if cs.Birth == "dial" {
+			cs.DialWithTimeout = rapid.Bool().Draw(t, "dialwithtimeout")
+		}
 		cs.Transport = rapid.SampledFrom([]string{"tcp", "tcp", "unix"}).Draw(t, "transport")
 		if cs.Birth == "udp" {
 			cs.Transport = "udp"
@@ -772,12 +790,12 @@ func gen(t *rapid.T) Case {
 			cs.CloseInOpen = true
 		}
 		nc := rapid.IntRange(0, 3).Draw(t, "ncauses")
-		kinds := []string{"close", "close", "closeerr", "closeerr", "peerclose", "peerreset", "readdl", "writedl", "writetoreset", "overflow"}
+		kinds := []string{"close", "close", "closeerr", "closeerr", "peerclose", "peerreset", "readdl", "writedl", "writedl-bare", "writetoreset", "overflow"}
 		if cs.Birth == "udp" {
 			kinds = []string{"close", "closeerr", "readdl"}
 		}
 		if cs.Transport == "unix" {
-			kinds = []string{"close", "close", "closeerr", "peerclose", "readdl", "writedl", "overflow"}
+			kinds = []string{"close", "close", "closeerr", "peerclose", "readdl", "writedl", "writedl-bare", "overflow"}
 		}
 		for j := 0; j < nc; j++ {
 			cause := Cause{K: rapid.SampledFrom(kinds).Draw(t, "cause"), DelayUs: rapid.SampledFrom([]int{0, 0, 50, 300, 1000, 3000}).Draw(t, "delayus")}
@@ -798,6 +816,7 @@ func TestCheck(t *testing.T) {
 	vlib.RunCheck(r, vlib.Check[Case]{Name: "lifecycle", N: r.Pick(400, 10000), Gen: gen, Run: runCase, Confirm: true, RecordCurrent: true})
 	vlib.RunCheck(r, vlib.Check[Churn]{Name: "churn", N: r.Pick(160, 4000), Gen: genChurn, Run: runChurn, Confirm: true, RecordCurrent: true})
 	vlib.RunCheck(r, vlib.Check[PendingDials]{Name: "pending-dials", N: r.Pick(240, 6000), Gen: genPendingDials, Run: runPendingDials, Confirm: true, RecordCurrent: true})
+	vlib.RunCheck(r, vlib.Check[DialTimers]{Name: "dial-timers", N: r.Pick(160, 4000), Gen: genDialTimers, Run: runDialTimers, Confirm: true, RecordCurrent: true})
 	runShimTier(r)
 	r.Finish()
 }
